@@ -611,7 +611,14 @@ func TestVerifX07(t *testing.T) {
 	if err != nil {
 		t.Fatalf("INCONCLUSIVE: %v", err)
 	}
-	defer os.RemoveAll(base)
+	// A closed commit log's checkpoint goroutine may run once more when its ticker and the close coincide (it
+	// panics if the directory is gone): directories are removed with a delay of two checkpoint intervals, the
+	// rest is removed by the runner together with TMPDIR after the process has ended.
+	type vOld struct {
+		dir string
+		at  time.Time
+	}
+	var old []vOld
 
 	for _, b := range sf.Behaviours {
 		r := &vX07Run{t: t, id: b.ID, level: vStrDef(b.Cfg, "level", "unit"), hasFile: vBool(b.Cfg, "hasFile"),
@@ -669,6 +676,10 @@ func TestVerifX07(t *testing.T) {
 			}
 		}
 		r.stop()
-		os.RemoveAll(r.dir)
+		old = append(old, vOld{r.dir, time.Now()})
+		for len(old) > 0 && time.Since(old[0].at) > 12*time.Second {
+			os.RemoveAll(old[0].dir)
+			old = old[1:]
+		}
 	}
 }
